@@ -1560,6 +1560,11 @@ class ClassicChannel(utils.EventEmitter):
         )
         self._abort_connection_result()
         self._change_state(self.State.CLOSED)
+        if self.disconnection_result:
+            # Crossing requests: the channel is closed, our own request is moot
+            if not self.disconnection_result.done():
+                self.disconnection_result.set_result(None)
+            self.disconnection_result = None
         self.emit(self.EVENT_CLOSE)
         self.manager.on_channel_closed(self)
 
@@ -1881,7 +1886,9 @@ class LeCreditBasedChannel(utils.EventEmitter):
         if self.disconnection_result is not None:
             self.disconnection_result.set_result(None)
             self.disconnection_result = None
+        # Nothing can be sent anymore: release drain() waiters
         self.flush_output()
+        self.drained.set()
 
     def on_disconnection_response(self, response: L2CAP_Disconnection_Response) -> None:
         if self.state != self.State.DISCONNECTING:
@@ -2095,6 +2102,7 @@ class ChannelManager:
         self.extended_features = set(extended_features)
         self.connectionless_mtu = connectionless_mtu
         self.connection_parameters_update_response = None
+        self.connection_parameters_update_handle = None
 
     @property
     def host(self) -> Host:
@@ -2257,6 +2265,13 @@ class ChannelManager:
                     future.cancel("ACL disconnected")
         for key in [key for key in self.le_coc_requests if key[0] == connection_handle]:
             del self.le_coc_requests[key]
+        if (
+            self.connection_parameters_update_response
+            and self.connection_parameters_update_handle == connection_handle
+        ):
+            if not self.connection_parameters_update_response.done():
+                self.connection_parameters_update_response.cancel()
+            self.connection_parameters_update_response = None
         self.identifiers.pop(connection_handle, None)
 
     def send_pdu(
@@ -2596,6 +2611,7 @@ class ChannelManager:
         self.connection_parameters_update_response = (
             asyncio.get_running_loop().create_future()
         )
+        self.connection_parameters_update_handle = connection.handle
         self.send_control_frame(
             connection,
             L2CAP_LE_SIGNALING_CID,
